@@ -293,6 +293,43 @@ def check_fallback(ctx):
     ctx.add('fallback', ev, nt)
 
 
+def check_copies(ctx):
+    """A copy of a shipped adsorbate (copy.copy; deepcopy / pickle where they are supported at all) answers like the original, used or not."""
+    import copy
+    import pickle
+    import pygaps
+    ev = nt = 0
+    meths = [('molar_mass', ()), ('saturation_pressure', None), ('liquid_density', None), ('gas_density', None), ('surface_tension', None), ('enthalpy_vaporisation', None),
+             ('p_critical', ()), ('t_triple', ())]
+    for name in ('nitrogen', 'carbon dioxide', 'difluoromethane', 'n-heptane'):
+        for used in (False, True):
+            for how, cp in (('copy.copy', copy.copy), ('copy.deepcopy', copy.deepcopy), ('pickle round trip', lambda x: pickle.loads(pickle.dumps(x)))):
+                a = pygaps.Adsorbate.find(name)
+                a._state = None
+                a._backend_mode = None
+                T = 0.5 * (a.t_triple() + a.t_critical())
+                a._state = None
+                a._backend_mode = None
+                if used:
+                    a.saturation_pressure(T)
+                    a.enthalpy_vaporisation(press=0.5 * a.saturation_pressure(T))
+                c = core.call(cp, a)
+                ev += 1
+                if not c.ok:
+                    continue        # copying by this route is refused: nothing to compare
+                nt += 1
+                for meth, args in meths:
+                    args = (T,) if args is None else args
+                    want, got = core.call(getattr(a, meth), *args), core.call(getattr(c.value, meth), *args)
+                    if want.ok != got.ok or (want.ok and abs(got.value - want.value) > 1e-12 * abs(want.value)):
+                        ctx.violate(core.make_violation({'check': 'copy-answers-differently', 'how': how, 'used_before': used},
+                                                        f'{how} of the shipped {name!r} ({"after it was used" if used else "never used"}): {meth}{args} = '
+                                                        f'{got.value if got.ok else got.brief()[:100]} but the original gives {want.value if want.ok else want.brief()[:100]}',
+                                                        {'adsorbate': name, 'method': meth}))
+                        break
+    ctx.add('copies', ev, nt)
+
+
 def check_replacement(ctx):
     """A string designates the adsorbate that is registered NOW, also after the registry entry was replaced."""
     import pygaps
@@ -343,8 +380,11 @@ def check_replacement(ctx):
                 else:
                     up = core.call(q.isotherm_to_db, BaseIsotherm(material='c20', adsorbate=name, temperature=300.0), db_path=work, autoinsert_material=True,
                                    autoinsert_adsorbate=True, verbose=False)
+                ev += 1
                 if not up.ok:
-                    raise core.HarnessError(f'{how} of the shipped {name!r} into an empty database failed: {up.brief()}')
+                    ctx.violate(core.make_violation({'check': 'upload-of-shipped-adsorbate-fails', 'how': how},
+                                                    f'{how} of the shipped {name!r} into an empty database (schema only) {up.brief()[:160]}', {'adsorbate': name}))
+                    continue
                 for st in strings:
                     fnd = core.call(pygaps.Adsorbate.find, st)
                     ev += 1
@@ -359,6 +399,37 @@ def check_replacement(ctx):
                 if not iso.ok or iso.value.adsorbate is not ads:
                     ctx.violate(core.make_violation({'check': 'upload-changes-registry', 'how': how, 'via': 'isotherm'},
                                                     f'after {how} of the shipped {ads.name!r} an isotherm created with {ads.name!r} is not linked to it', {}))
+        # a NEW adsorbate with a property type the file does not know yet, stored in a copy of the packaged database: afterwards
+        # every name and alias in that file still designates exactly one adsorbate and the shipped entries are untouched
+        before_db = {a.name: a.to_dict() for a in q.adsorbates_from_db(db_path=str(pygaps.DATABASE), verbose=False)}
+        for props in ({'isotope': 15}, {'isotope': 15, 'supplier': 'x', 'purity': 0.999}, {}):
+            pygaps.ADSORBATE_LIST[:] = base
+            shutil.copyfile(str(pygaps.DATABASE), work)
+            new = pygaps.Adsorbate('nitrogen-15', formula='N_{2}', alias=['15n2', 'heavy nitrogen'], molar_mass=30.0002, **props)
+            up = core.call(q.adsorbate_to_db, new, db_path=work, verbose=False)
+            ev += 1
+            if not up.ok:
+                ctx.violate(core.make_violation({'check': 'new-adsorbate-upload-fails'}, f'adsorbate_to_db of a new adsorbate with properties {props} into a copy of the packaged database {up.brief()[:150]}', {}))
+                continue
+            nt += 1
+            pygaps.ADSORBATE_LIST[:] = base
+            after = core.call(q.adsorbates_from_db, db_path=work, verbose=False)
+            if not after.ok:
+                ctx.violate(core.make_violation({'check': 'new-adsorbate-breaks-file'}, f'after storing a new adsorbate the file cannot be read: {after.brief()[:150]}', {}))
+                continue
+            owners = {}
+            for a in after.value:
+                for al in {a.name.lower()} | {x.lower() for x in a.alias}:
+                    owners.setdefault(al, set()).add(a.name)
+            amb = {al: sorted(o) for al, o in owners.items() if len(o) > 1}
+            changed = [n for n, d in before_db.items() if next((x.to_dict() for x in after.value if x.name == n), None) != d]
+            mine = next((x for x in after.value if x.name == 'nitrogen-15'), None)
+            want = new.to_dict()
+            if amb or changed or mine is None or {k: v for k, v in mine.to_dict().items() if k != 'alias'} != {k: v for k, v in want.items() if k != 'alias'} \
+                    or {x.lower() for x in mine.alias} != {x.lower() for x in new.alias}:
+                ctx.violate(core.make_violation({'check': 'new-adsorbate-corrupts-registry-file'},
+                                                f'after adsorbate_to_db of a new adsorbate (properties {props}) into a copy of the packaged database: ambiguous names {dict(list(amb.items())[:3])}, '
+                                                f'shipped entries changed {changed[:3]}, stored entry {mine.to_dict() if mine else None} (uploaded {want})', {'properties': props}))
         # a REFUSED deletion (adsorbate absent from that database / still referenced by an isotherm) leaves the registry as it was
         for why in ('not in that database', 'referenced by an isotherm'):
             for name in ('nitrogen', 'carbon dioxide'):
@@ -370,7 +441,9 @@ def check_replacement(ctx):
                         up = core.call(q.isotherm_to_db, BaseIsotherm(material='c20', adsorbate=name, temperature=300.0), db_path=work, autoinsert_material=True,
                                        autoinsert_adsorbate=True, verbose=False)
                         if not up.ok:
-                            raise core.HarnessError(f'upload failed: {up.brief()}')
+                            ctx.violate(core.make_violation({'check': 'upload-of-shipped-adsorbate-fails', 'how': 'isotherm_to_db(autoinsert_adsorbate=True)'},
+                                                            f'isotherm_to_db with automatic insertion of the shipped {name!r} into an empty database {up.brief()[:160]}', {'adsorbate': name}))
+                            continue
                     n0 = len(pygaps.ADSORBATE_LIST)
                     d = core.call(q.adsorbate_delete_db, ads if arg_kind == 'object' else ads.name, db_path=work, verbose=False)
                     ev += 1
@@ -405,6 +478,7 @@ def run(ctx):
         ctx.track('pygaps_vs_PropsSI', r['worst'], 1e-9)
     ctx.cov['reference_unavailable'] = sk
     check_fallback(ctx)
+    check_copies(ctx)
     check_replacement(ctx)
     ctx.require('shipped_adsorbates', ctx.cov['shipped_adsorbates'], 170)
     ctx.require('backend_linked', len(backends), 75)
